@@ -68,7 +68,7 @@ class C01(Prop):
         await self.rig.close()
 
     def cases(self, tier, seed, shard, nshards):
-        n = {"quick": 9600, "thorough": 80_000}[tier]
+        n = {"quick": 9600, "thorough": 160_000}[tier]
         for i in range(shard, n, nshards):
             yield {"i": i, "seed": seed}
 
